@@ -30,6 +30,8 @@ def main():
         for cidx, clause in enumerate(mod.CLAUSES):
             if only and clause.name not in only:
                 continue
+            if getattr(clause, "only_tiers", None) and tier not in clause.only_tiers and not only:
+                continue
             r = engine.ClauseRunner(prop, clause, cidx, tier, widx, nworkers, vseed, known, predicates,
                                     os.environ.get("PYTHONHASHSEED"))
             tc = time.time()
